@@ -7,6 +7,8 @@ open Datatypes
 open Json
 open List
 open OutViews
+open Plain
+open Pragma
 open State
 open Str
 open String
@@ -256,20 +258,64 @@ let b2s = function
 | true -> (Npos (Coq_xI (Coq_xO (Coq_xO (Coq_xO (Coq_xI Coq_xH)))))) :: []
 | false -> (Npos (Coq_xO (Coq_xO (Coq_xO (Coq_xO (Coq_xI Coq_xH)))))) :: []
 
+(** val is_ok_status : jv -> bool **)
+
+let is_ok_status = function
+| JStr st0 ->
+  sq (String ((Ascii (true, true, true, true, false, true, true, false)),
+    (String ((Ascii (true, true, false, true, false, true, true, false)),
+    EmptyString)))) st0
+| _ -> false
+
 (** val extras : jv -> jv -> (str * str) list **)
 
 let extras c model_out =
-  let real =
-    dec
-      (jfield_d (String ((Ascii (true, true, true, true, false, true, true,
-        false)), (String ((Ascii (true, false, true, false, true, true, true,
-        false)), (String ((Ascii (false, false, true, false, true, true,
-        true, false)), (String ((Ascii (false, false, false, false, true,
-        true, true, false)), (String ((Ascii (true, false, true, false, true,
-        true, true, false)), (String ((Ascii (false, false, true, false,
-        true, true, true, false)), EmptyString)))))))))))) c)
+  let e = env_of c in
+  let real_j =
+    jfield_d (String ((Ascii (true, true, true, true, false, true, true,
+      false)), (String ((Ascii (true, false, true, false, true, true, true,
+      false)), (String ((Ascii (false, false, true, false, true, true, true,
+      false)), (String ((Ascii (false, false, false, false, true, true, true,
+      false)), (String ((Ascii (true, false, true, false, true, true, true,
+      false)), (String ((Ascii (false, false, true, false, true, true, true,
+      false)), EmptyString)))))))))))) c
   in
+  let real = dec real_j in
   let model = dec model_out in
+  let input =
+    dec
+      (jfield_d (String ((Ascii (true, false, false, true, false, true, true,
+        false)), (String ((Ascii (false, true, true, true, false, true, true,
+        false)), (String ((Ascii (false, false, false, false, true, true,
+        true, false)), (String ((Ascii (true, false, true, false, true, true,
+        true, false)), (String ((Ascii (false, false, true, false, true,
+        true, true, false)), EmptyString)))))))))) c)
+  in
+  let rdiags =
+    jstrs
+      (jfield_d (String ((Ascii (false, false, true, false, false, true,
+        true, false)), (String ((Ascii (true, false, false, true, false,
+        true, true, false)), (String ((Ascii (true, false, false, false,
+        false, true, true, false)), (String ((Ascii (true, true, true, false,
+        false, true, true, false)), (String ((Ascii (true, true, false,
+        false, true, true, true, false)), EmptyString)))))))))) c)
+  in
+  let alt =
+    jfield_d (String ((Ascii (true, false, false, false, false, true, true,
+      false)), (String ((Ascii (false, false, true, true, false, true, true,
+      false)), (String ((Ascii (false, false, true, false, true, true, true,
+      false)), EmptyString)))))) c
+  in
+  let alt_ok =
+    is_ok_status
+      (jfield_d (String ((Ascii (true, true, false, false, true, true, true,
+        false)), (String ((Ascii (false, false, true, false, true, true,
+        true, false)), (String ((Ascii (true, false, false, false, false,
+        true, true, false)), (String ((Ascii (false, false, true, false,
+        true, true, true, false)), (String ((Ascii (true, false, true, false,
+        true, true, true, false)), (String ((Ascii (true, true, false, false,
+        true, true, true, false)), EmptyString)))))))))))) alt)
+  in
   ((s_ (String ((Ascii (true, true, true, true, false, true, true, false)),
      (String ((Ascii (true, true, false, false, false, false, true, false)),
      (String ((Ascii (true, false, false, false, true, true, false, false)),
@@ -331,7 +377,228 @@ let extras c model_out =
                                  (String ((Ascii (true, true, false, false,
                                  true, true, false, false)),
                                  EmptyString))))))))),
-  (b2s (jv_eqb (view_C13 real) (view_C13 model)))) :: [])
+  (b2s (jv_eqb (view_C13 real) (view_C13 model)))) :: (((s_ (String ((Ascii
+                                                          (true, true, true,
+                                                          true, false, true,
+                                                          true, false)),
+                                                          (String ((Ascii
+                                                          (true, true, false,
+                                                          false, false,
+                                                          false, true,
+                                                          false)), (String
+                                                          ((Ascii (false,
+                                                          false, false,
+                                                          false, true, true,
+                                                          false, false)),
+                                                          (String ((Ascii
+                                                          (true, true, true,
+                                                          false, true, true,
+                                                          false, false)),
+                                                          EmptyString))))))))),
+  (b2s
+    ((||) (jsx_free real) (match rdiags with
+                           | [] -> false
+                           | _ :: _ -> true)))) :: (((s_ (String ((Ascii
+                                                       (false, true, true,
+                                                       false, true, true,
+                                                       true, false)), (String
+                                                       ((Ascii (true, true,
+                                                       false, false, false,
+                                                       false, true, false)),
+                                                       (String ((Ascii
+                                                       (false, false, false,
+                                                       false, true, true,
+                                                       false, false)),
+                                                       (String ((Ascii (true,
+                                                       true, true, false,
+                                                       true, true, false,
+                                                       false)),
+                                                       EmptyString))))))))),
+  (b2s (eqb (jsx_free real) (jsx_free model)))) :: (((s_ (String ((Ascii
+                                                       (true, true, true,
+                                                       true, false, true,
+                                                       true, false)), (String
+                                                       ((Ascii (true, true,
+                                                       false, false, false,
+                                                       false, true, false)),
+                                                       (String ((Ascii (true,
+                                                       false, false, false,
+                                                       true, true, false,
+                                                       false)), (String
+                                                       ((Ascii (true, false,
+                                                       true, false, true,
+                                                       true, false, false)),
+                                                       EmptyString))))))))),
+  (b2s (oracle_C15 (expected_pragma e) real))) :: (((s_ (String ((Ascii
+                                                      (false, true, true,
+                                                      false, true, true,
+                                                      true, false)), (String
+                                                      ((Ascii (true, true,
+                                                      false, false, false,
+                                                      false, true, false)),
+                                                      (String ((Ascii (true,
+                                                      false, false, false,
+                                                      true, true, false,
+                                                      false)), (String
+                                                      ((Ascii (true, false,
+                                                      true, false, true,
+                                                      true, false, false)),
+                                                      EmptyString))))))))),
+  (b2s (jv_eqb (view_C15 real) (view_C15 model)))) :: (((s_ (String ((Ascii
+                                                          (true, true, true,
+                                                          true, false, true,
+                                                          true, false)),
+                                                          (String ((Ascii
+                                                          (true, true, false,
+                                                          false, false,
+                                                          false, true,
+                                                          false)), (String
+                                                          ((Ascii (false,
+                                                          false, false,
+                                                          false, true, true,
+                                                          false, false)),
+                                                          (String ((Ascii
+                                                          (true, false,
+                                                          false, true, true,
+                                                          true, false,
+                                                          false)), (String
+                                                          ((Ascii (false,
+                                                          true, true, false,
+                                                          false, true, true,
+                                                          false)), (String
+                                                          ((Ascii (false,
+                                                          true, false, false,
+                                                          true, true, true,
+                                                          false)), (String
+                                                          ((Ascii (true,
+                                                          false, false,
+                                                          false, false, true,
+                                                          true, false)),
+                                                          (String ((Ascii
+                                                          (true, false, true,
+                                                          true, false, true,
+                                                          true, false)),
+                                                          (String ((Ascii
+                                                          (true, false, true,
+                                                          false, false, true,
+                                                          true, false)),
+                                                          EmptyString))))))))))))))))))),
+  (b2s
+    (if (&&) (jsx_free input) (negb e.e_opts.o_resolve_type)
+     then jv_eqb real_j
+            (jfield_d (String ((Ascii (true, false, false, true, false, true,
+              true, false)), (String ((Ascii (false, true, true, true, false,
+              true, true, false)), (String ((Ascii (false, false, false,
+              false, true, true, true, false)), (String ((Ascii (true, false,
+              true, false, true, true, true, false)), (String ((Ascii (false,
+              false, true, false, true, true, true, false)),
+              EmptyString)))))))))) c)
+     else true))) :: (((s_ (String ((Ascii (false, true, false, true, false,
+                         true, true, false)), (String ((Ascii (true, true,
+                         false, false, true, true, true, false)), (String
+                         ((Ascii (false, false, false, true, true, true,
+                         true, false)), (String ((Ascii (false, true, true,
+                         false, false, true, true, false)), (String ((Ascii
+                         (false, true, false, false, true, true, true,
+                         false)), (String ((Ascii (true, false, true, false,
+                         false, true, true, false)), (String ((Ascii (true,
+                         false, true, false, false, true, true, false)),
+                         (String ((Ascii (true, true, true, true, true,
+                         false, true, false)), (String ((Ascii (true, false,
+                         false, true, false, true, true, false)), (String
+                         ((Ascii (false, true, true, true, false, true, true,
+                         false)), EmptyString))))))))))))))))))))),
+  (b2s (jsx_free input))) :: (((s_ (String ((Ascii (true, true, true, true,
+                                 false, true, true, false)), (String ((Ascii
+                                 (true, true, false, false, false, false,
+                                 true, false)), (String ((Ascii (false,
+                                 false, false, false, true, true, false,
+                                 false)), (String ((Ascii (true, false,
+                                 false, true, true, true, false, false)),
+                                 (String ((Ascii (true, false, false, true,
+                                 false, true, true, false)), (String ((Ascii
+                                 (false, false, true, false, false, true,
+                                 true, false)), (String ((Ascii (true, false,
+                                 true, false, false, true, true, false)),
+                                 (String ((Ascii (true, false, true, true,
+                                 false, true, true, false)),
+                                 EmptyString))))))))))))))))),
+  (b2s
+    (match rdiags with
+     | [] ->
+       jv_eqb
+         (jfield_d (String ((Ascii (true, true, true, true, false, true,
+           true, false)), (String ((Ascii (true, false, true, false, true,
+           true, true, false)), (String ((Ascii (false, false, true, false,
+           true, true, true, false)), (String ((Ascii (false, false, false,
+           false, true, true, true, false)), (String ((Ascii (true, false,
+           true, false, true, true, true, false)), (String ((Ascii (false,
+           false, true, false, true, true, true, false)), (String ((Ascii
+           (false, true, false, false, true, true, false, false)),
+           EmptyString)))))))))))))) c) real_j
+     | _ :: _ -> true))) :: (((s_ (String ((Ascii (true, false, false, false,
+                                false, true, true, false)), (String ((Ascii
+                                (false, false, true, true, false, true, true,
+                                false)), (String ((Ascii (false, false, true,
+                                false, true, true, true, false)), (String
+                                ((Ascii (true, true, true, true, true, false,
+                                true, false)), (String ((Ascii (true, true,
+                                false, false, true, true, true, false)),
+                                (String ((Ascii (true, false, false, false,
+                                false, true, true, false)), (String ((Ascii
+                                (true, false, true, true, false, true, true,
+                                false)), (String ((Ascii (true, false, true,
+                                false, false, true, true, false)),
+                                EmptyString))))))))))))))))),
+  (b2s
+    (if alt_ok
+     then (&&)
+            (jv_eqb
+              (jfield_d (String ((Ascii (true, true, true, true, false, true,
+                true, false)), (String ((Ascii (true, false, true, false,
+                true, true, true, false)), (String ((Ascii (false, false,
+                true, false, true, true, true, false)), (String ((Ascii
+                (false, false, false, false, true, true, true, false)),
+                (String ((Ascii (true, false, true, false, true, true, true,
+                false)), (String ((Ascii (false, false, true, false, true,
+                true, true, false)), EmptyString)))))))))))) alt) real_j)
+            (strs_eqb
+              (sort_strs
+                (jstrs
+                  (jfield_d (String ((Ascii (false, false, true, false,
+                    false, true, true, false)), (String ((Ascii (true, false,
+                    false, true, false, true, true, false)), (String ((Ascii
+                    (true, false, false, false, false, true, true, false)),
+                    (String ((Ascii (true, true, true, false, false, true,
+                    true, false)), (String ((Ascii (true, true, false, false,
+                    true, true, true, false)), EmptyString)))))))))) alt)))
+              (sort_strs rdiags))
+     else true))) :: (((s_ (String ((Ascii (true, false, false, false, false,
+                         true, true, false)), (String ((Ascii (false, false,
+                         true, true, false, true, true, false)), (String
+                         ((Ascii (false, false, true, false, true, true,
+                         true, false)), (String ((Ascii (true, true, true,
+                         true, true, false, true, false)), (String ((Ascii
+                         (true, true, false, false, true, true, true,
+                         false)), (String ((Ascii (false, false, true, false,
+                         true, true, true, false)), (String ((Ascii (false,
+                         true, false, false, true, true, true, false)),
+                         (String ((Ascii (true, false, false, true, false,
+                         true, true, false)), (String ((Ascii (false, false,
+                         false, false, true, true, true, false)),
+                         EmptyString))))))))))))))))))),
+  (b2s
+    (if alt_ok
+     then jv_eqb (enc (strip_hints real))
+            (jfield_d (String ((Ascii (true, true, true, true, false, true,
+              true, false)), (String ((Ascii (true, false, true, false, true,
+              true, true, false)), (String ((Ascii (false, false, true,
+              false, true, true, true, false)), (String ((Ascii (false,
+              false, false, false, true, true, true, false)), (String ((Ascii
+              (true, false, true, false, true, true, true, false)), (String
+              ((Ascii (false, false, true, false, true, true, true, false)),
+              EmptyString)))))))))))) alt)
+     else true))) :: []))))))))))
 
 (** val run_case : jv -> case_result **)
 
